@@ -90,7 +90,9 @@ func (p *Program) verifyFunction(fn *ssa.Function, fc *FuncContract) (res *FuncR
 		for _, g := range fc.Ghosts {
 			srt, typ := ghostSort(g.Type)
 			var v Val
-			if g.Init != "" {
+			if g.Init == "zero" && srt.IsArray() {
+				v = Val{Typ: typ, C: []*T{constArrayZero(srt, x)}}
+			} else if g.Init != "" {
 				iv, err := env.EvalVal(g.Init)
 				if err != nil {
 					x.errorf("%s:%d: ghost %s: %v", fc.File, fc.Line, g.Name, err)
@@ -231,4 +233,16 @@ func (p *Program) resolveGoType(pkg *types.Package, s string) types.Type {
 		return obj.Type()
 	}
 	return nil
+}
+
+
+func constArrayZero(srt Sort, x *Exec) *T {
+	_, vs := srt.ArrParts()
+	var z *T
+	if vs.IsArray() {
+		z = constArrayZero(vs, x)
+	} else {
+		z = zeroOf(vs, x)
+	}
+	return App("(as const "+string(srt)+")", srt, z)
 }
